@@ -136,6 +136,9 @@ func runC09(c *Ctx, r *Report) {
 	defer c09r8(c, r)
 	defer c09r9(c, r)
 	defer c09r10(c, r)
+	defer c09r11(c, r)
+	defer c09r12(c, r)
+	defer c09r13(c, r)
 	defer c07r6(c, r) // an action list stops at the action that ends the session
 
 	// ---------------- R2 ----------------
